@@ -334,6 +334,9 @@ def embeds(small, big):
       if n in ren:
         if ren[n] not in bkw:
           ok = False
+      elif n in ("va", "kw"):
+        if n not in bkw:
+          ok = False
       elif not (bkw & set(S.UNKNOWN)):
         ok = False
     if ok:
@@ -448,10 +451,10 @@ def _tasks(tier, seed):
 
   info["exhaustive <=1 parameter of each kind"] = {
       "signatures": len(S.enumerate_signatures(1)), "callee_kinds": len(S.KINDS), "call_fraction": 1.0,
-      "call_shapes": "0..#positional+1 (+1 with *va) positionals x keyword subsets (<=3) of params + 1 unknown"}
+      "call_shapes": "0..#positional+1 (+1 with *va) positionals x keyword subsets (<=3; <=2 when a star-parameter name is used) of params + the callee's own *va/**kw names + 1 unknown"}
   if tier == "quick":
     ns1 = 23
-    frac1 = {"func": 1.0, "method": 0.5, "classmethod": 0.5, "staticmethod": 0.5, "init": 0.5, "lambda": 0.5}
+    frac1 = {"func": 1.0, "method": 0.3, "classmethod": 0.3, "staticmethod": 0.3, "init": 0.3, "lambda": 0.3}
     info["exhaustive <=1 parameter of each kind"]["call_fraction"] = frac1
     for s in range(ns1):
       add(f"exh1/{s}", mode="exhaustive", max_per_kind=1, kinds=S.KINDS, max_kw=3, shard=s, nshards=ns1,
@@ -464,14 +467,14 @@ def _tasks(tier, seed):
       add(f"exh1/{s}", mode="exhaustive", max_per_kind=1, kinds=S.KINDS, max_kw=3, shard=s, nshards=ns1,
           star_fraction=0.3)
     ns2 = 160
-    frac = {"func": 1.0, "method": 0.12, "classmethod": 0.08, "staticmethod": 0.08, "init": 0.12, "lambda": 0.08}
+    frac = {"func": 1.0, "method": 0.1, "classmethod": 0.06, "staticmethod": 0.06, "init": 0.1, "lambda": 0.06}
     for s in range(ns2):
       add(f"exh2/{s}", mode="exhaustive", max_per_kind=2, kinds=S.KINDS, max_kw=3, shard=s, nshards=ns2,
           call_fraction=frac, star_fraction=0.03)
     info["exhaustive <=2 parameters of each kind"] = {
         "signatures": len(S.enumerate_signatures(2)), "call_fraction_by_kind": frac,
-        "call_shapes": "0..#positional+1 (+1 with *va) positionals x keyword subsets (<=3) of params + 1 unknown"}
-    for b in range(96):
+        "call_shapes": "0..#positional+1 (+1 with *va) positionals x keyword subsets (<=3; <=2 when a star-parameter name is used) of params + the callee's own *va/**kw names + 1 unknown"}
+    for b in range(80):
       add(f"rnd/{b}", mode="random", count=40, calls_per_sig=16, star_fraction=0.35)
   return tasks, info
 
@@ -480,8 +483,8 @@ def run(tier, seed):
   ck = common.Check(
       PID, tier, seed,
       rule=("signatures over positional-only / positional-or-keyword / keyword-only parameters (each with or "
-            "without default), optional *va, **kw; calls = n positionals + keyword-name subset (incl. one "
-            "unknown name), some with literal *seq / **map; six callee kinds (function, method, classmethod, "
+            "without default), optional *va, **kw; calls = n positionals + keyword-name subset (parameter names, the "
+            "callee's own *va / **kw parameter names, one unknown name), some with literal *seq / **map; six callee kinds (function, method, classmethod, "
             "staticmethod, __init__, lambda). Exhaustive slices as listed under exhaustive_slices + random larger "
             "signatures (<=3 per kind). evaluations = calls judged by CPython and pytype. non-trivial = the "
             "signature has a default, *va or **kw, or the call uses keywords / *seq / **map; distinct by "
